@@ -128,6 +128,10 @@ def run_ddsmt(workdir, text, spec, opts, mode='blackbox', plan=None, spec_cc=Non
         r.timed_out = True
         r.survivors_at_timeout = list_group(p.pid)
         try:
+            r.log_idle_at_timeout = time.time() - os.path.getmtime(log)
+        except OSError:
+            r.log_idle_at_timeout = None
+        try:
             os.killpg(p.pid, signal.SIGKILL)
         except ProcessLookupError:
             pass
